@@ -13,8 +13,9 @@
 From V Require Export Base CorrBase Signer Gen_Signer.
 
 Record obs_req := {
+  o_proto : str;            (* r.Proto in the upstream's handler *)
   o_method : str;
-  o_headers : headers;      (* all received headers, keys sorted *)
+  o_headers : headers;      (* r.Header in the upstream's handler (after its server's own processing), keys sorted *)
   o_path : str;
   o_rawquery : str;
   o_body : str
@@ -106,6 +107,7 @@ Definition holds_body (sent_body : str) (recv : obs_req) : bool := str_eqb sent_
 (* ---- model prediction vs observation, on projected observables ---- *)
 Definition proj_keys : list str := gen_cov ++ gen_covh.
 Definition proj_eq (p : request) (o : obs_req) : bool :=
+  str_eqb upstream_proto (o_proto o) &&
   str_eqb (r_method p) (o_method o) && str_eqb (r_path p) (o_path o) &&
   str_eqb (r_rawquery p) (o_rawquery o) && str_eqb (body_bytes p) (o_body o) &&
   forallb (fun k => strs_eqb (hvals k (r_headers p)) (hvals k (o_headers o))) proj_keys.
